@@ -540,12 +540,12 @@ def run(ctx):
     for firsts in hist.split(nf, ctx.pick(4, 8)):
         jobs.append({"mode": "exh", "alphabet": "full", "maxlen": 2, "firsts": firsts})
     for chunk in range(ctx.pick(6, 16)):
-        jobs.append({"mode": "rnd", "chunk": chunk, "nseq": ctx.pick(500, 4000)})
+        jobs.append({"mode": "rnd", "chunk": chunk, "nseq": ctx.pick(500, 20000)})
     ctx.extra["alphabet_sizes"] = {"core": nc, "full": nf}
     ctx.exhaustive = False
     ctx.extra["exhaustive_part"] = "all sequences of length <= %d over the core alphabet and <= 2 over the full " \
                                    "alphabet (not extended past a divergence)" % core_len
-    ctx.shard(jobs, timeout=ctx.pick(120, 500))
+    ctx.shard(jobs, timeout=ctx.pick(120, 1500))
     ctx.floor("exhaustive_sequences", ctx.pick(10000, 100000))
     ctx.floor("random_sequences", ctx.pick(1500, 30000))
     for h in ("update_stamped", "create_added", "create_no_overwrite", "change_applied", "spew_on_empty",
